@@ -120,13 +120,13 @@ type rcCase struct {
 }
 
 // runRC compiles one shape and solves the cases against the integer oracle.
-func runRC(r *vcore.Run, fc fieldCtx, b string, sh *rcShape, cases []rcCase, part string) {
+func runRC(r *vcore.Run, fc fieldCtx, b string, sh *rcShape, cases []rcCase, part string) (limbWidth int) {
 	sys, err := compile(fc, b, sh.circuit())
 	if err != nil {
 		r.Inconclusive("compile:" + bucket(err))
 		r.Count("rc.compile-failed", 1)
 		r.SampleClass("rc.compile-failed", map[string]any{"field": fc.name, "builder": b, "shape": sh.String(), "err": err.Error()})
-		return
+		return 0
 	}
 	strat := stratName(sh.strategy)
 	r.Count(fmt.Sprintf("strategy.%s.%s.%s", strat, b, fieldClass(fc)), len(cases))
@@ -151,9 +151,14 @@ func runRC(r *vcore.Run, fc fieldCtx, b string, sh *rcShape, cases []rcCase, par
 		want := sh.accepts(cs.vals)
 		serr, pan := solve(sys, w, opts...)
 		r.Eval(fmt.Sprintf("%s|%s|%s|%s|%v", part, fc.name, b, sh.String(), strs(cs.vals)), len(sh.checks) > 0)
-		for wd, n := range st.widths {
-			_ = n
+		for wd := range st.widths {
 			r.Count(fmt.Sprintf("rc.limbwidth=%02d", wd), 1)
+			limbWidth = wd
+		}
+		if strings.Contains(cs.note, "dyadic") {
+			if serr != nil {
+				r.Count("rc.dyadic-fraction-rejected."+strat, 1)
+			}
 		}
 		rep := map[string]any{"field": fc.name, "builder": b, "shape": sh.String(), "strategy": strat, "values": strs(cs.vals), "note": cs.note, "solver_said": fmt.Sprint(serr)}
 		if len(cs.vals) > 40 {
@@ -178,6 +183,7 @@ func runRC(r *vcore.Run, fc fieldCtx, b string, sh *rcShape, cases []rcCase, par
 			r.SampleClass(cnt+".rejected."+strat, rep)
 		}
 	}
+	return limbWidth
 }
 
 func widthList(r *vcore.Run, fb int) []int {
@@ -223,6 +229,9 @@ func honestRangeGrid(r *vcore.Run) {
 		}
 		for _, v := range outValues(rng, j.n, j.fc.mod, r.Pick(6, 14)) {
 			cases = append(cases, rcCase{[]*big.Int{v}, fmt.Sprintf("n=%d v=%s (out of range)", j.n, v)})
+		}
+		for _, v := range dyadicValues(j.n, j.fc.mod, 17) { // all +-k*2^-j: small only after scaling
+			cases = append(cases, rcCase{[]*big.Int{v}, fmt.Sprintf("n=%d v=%s (out of range, dyadic fraction)", j.n, v)})
 		}
 		runRC(r, j.fc, j.b, sh, cases, "grid")
 	})
@@ -284,10 +293,16 @@ func honestRangeTiny(r *vcore.Run) {
 // the commit strategy picks), some variables checked twice, some constants.
 func mixShape(rng *rand.Rand, nv int, fb int, plain bool) *rcShape {
 	sh := &rcShape{nVals: nv, plain: plain}
-	style := rng.IntN(5)
+	style := rng.IntN(6)
+	wide := []int{16, 32, 64}[rng.IntN(3)]
 	for i := 0; i < nv; i++ {
 		var n int
 		switch style {
+		case 5: // a few narrow checks among many wide ones: the chosen limb width exceeds the narrow width
+			n = wide
+			if i == 0 || rng.IntN(25) == 0 {
+				n = 1 + rng.IntN(7)
+			}
 		case 0:
 			n = 1 + rng.IntN(70)
 		case 1:
@@ -340,11 +355,15 @@ func mixCases(rng *rand.Rand, sh *rcShape, p *big.Int, nIn, nOut int) []rcCase {
 				continue
 			}
 			ov := outValues(rng, ck.bits, p, 4)
+			kind := ""
+			if dy := dyadicValues(ck.bits, p, 17); len(dy) > 0 && rng.IntN(2) == 0 {
+				ov, kind = dy, " (dyadic fraction)"
+			}
 			if len(ov) == 0 {
 				continue
 			}
 			vals[ck.v] = ov[rng.IntN(len(ov))]
-			cases = append(cases, rcCase{vals, fmt.Sprintf("Vals[%d]=%s violates its %d-bit check", ck.v, vals[ck.v], ck.bits)})
+			cases = append(cases, rcCase{vals, fmt.Sprintf("Vals[%d]=%s violates its %d-bit check%s", ck.v, vals[ck.v], ck.bits, kind)})
 			break
 		}
 	}
@@ -394,7 +413,10 @@ func genLkShape(rng *rand.Rand, size, kind, nQ int, interleave bool, nTables int
 	var inserts, lookups []lkOp
 	for t := 0; t < nTables; t++ {
 		for i := 0; i < size; i++ {
-			w := kind == 1 || (kind == 2 && rng.IntN(2) == 0)
+			// kinds: 0 constants, 1 witness, 2 random mix, 3 witness + last row constant,
+			// 4 first row constant, 5 middle row constant, 6 witness padded with several trailing constants
+			w := kind == 1 || (kind == 2 && rng.IntN(2) == 0) || (kind == 3 && i != size-1) || (kind == 4 && i != 0) ||
+				(kind == 5 && i != size/2) || (kind == 6 && i < (size+1)/2)
 			if w {
 				inserts = append(inserts, lkOp{table: t, insert: true, slot: sh.nEnt})
 				sh.nEnt++
@@ -523,8 +545,11 @@ func honestLookups(r *vcore.Run) {
 	var jobs []job
 	for _, fc := range []fieldCtx{fBN254, fBLS377} {
 		for _, size := range sizes {
-			for kind := 0; kind < 3; kind++ {
+			for kind := 0; kind < 7; kind++ {
 				for variant := 0; variant < r.Pick(2, 8); variant++ {
+					if kind >= 3 && (variant >= 2 || size > 64) {
+						continue
+					}
 					for _, b := range builders {
 						jobs = append(jobs, job{fc, b, size, kind, variant})
 					}
@@ -816,7 +841,10 @@ func advLookup(r *vcore.Run) {
 	}
 	for _, fc := range []fieldCtx{fBN254, fBLS377} {
 		for _, size := range sizes {
-			for kind := 0; kind < 3; kind++ {
+			for kind := 0; kind < 7; kind++ {
+				if kind >= 3 && size > 8 {
+					continue
+				}
 				for _, b := range builders {
 					jobs = append(jobs, job{fc, b, size, kind})
 				}
